@@ -381,6 +381,10 @@ func runScenario(s *Scenario, kind string, quiet time.Duration) *runOut {
 		if perr != nil {
 			return h1harness.Action{Close: true}
 		}
+		if req.Method != "GET" && req.Method != "POST" {
+			// e.g. left-over bytes of an earlier request body glued in front of the method
+			return h1harness.Action{Write: [][]byte{[]byte("HTTP/1.1 400 Bad Request\r\nContent-Length: 10\r\nX-Origin-Saw-Method: " + fmt.Sprintf("%q", req.Method) + "\r\n\r\nbad method")}}
+		}
 		switch {
 		case strings.HasSuffix(req.Target, "/warm"):
 			return h1harness.Action{Write: [][]byte{warmResp}}
